@@ -61,6 +61,11 @@ func (fsys *FS) OpenFile(path string, flags int, perm fs.FileMode) (afero.File, 
 		return NewVirtualISO(fsys.Fs, path, typ == virtualPS3ISOFile)
 	}
 
+	// open of a named pipe blocks until somebody opens the other end, such things can't be served
+	if stat, err := fsys.Fs.Stat(path); err == nil && stat.Mode()&(fs.ModeNamedPipe|fs.ModeSocket) != 0 {
+		return nil, &fs.PathError{Op: "open", Path: path, Err: syscall.EINVAL}
+	}
+
 	f, err := fsys.Fs.OpenFile(path, flags, perm)
 	if err != nil || modificationsEnabled { // do not try wrappers if modifications enabled
 		return f, err
